@@ -439,7 +439,7 @@ def run_case(case):
             orig = getattr(sim, opname)
             setattr(sim, opname, (lambda orig: lambda a, b, c: (op_opengate(0, 0, 0), orig(a, b, c))[1])(orig))
     try:
-        resolved = simprop.run_steps(sim, case, EXTRA)
+        resolved = simprop.run_steps(sim, case, EXTRA, EXTRA + [('lagsnap', 6)])
         own = lambda: [v for v in sim.all_viol if v[0] in (PROP, 'C01')]
         if not own() and not sim.viol:      # a monitor of another property stopped the case: state is tainted, no closing verdict
             # closing phase: everyone back, healed; lagging / restarted nodes must reach equality (entries or snapshot)
